@@ -4,7 +4,8 @@ import CMacVerif.Util.Bits
 /-!
 Driver for C12: the model's allocation trace of one owner for one option vector.
 
-op line:   `<unit> <n> <bits>`      unit ∈ lom | tm | tbis | rhd, n = number of elements given to
+op line:   `<unit> <n> <bits>`      unit ∈ lom | tm | tbis | rhd | urm urr dpm dpr cam car
+                                   (random photon source distributions: main / restart constructor), n = number of elements given to
                                    vector fields (not used by the model), bits = option vector as
                                    a string of 0/1 in the order of the generated `opts` (`-` = none)
 answer:    `<unit> after=<kinds> owned=<f.f.f> dtor=<events> end=<kinds> #<tags>`
@@ -46,6 +47,12 @@ def unitOf : String → Option ClassDesc
   | "tm" => some Gen.Lifecycle.trackerManager
   | "tbis" => some Gen.Lifecycle.taskBasedIonizationSimulation
   | "rhd" => some Gen.Lifecycle.rhdSimulation
+  | "urm" => some Gen.Lifecycle.uniformRandomPSD
+  | "urr" => some Gen.Lifecycle.uniformRandomPSDRestart
+  | "dpm" => some Gen.Lifecycle.discPatchPSD
+  | "dpr" => some Gen.Lifecycle.discPatchPSDRestart
+  | "cam" => some Gen.Lifecycle.caproniPSD
+  | "car" => some Gen.Lifecycle.caproniPSDRestart
   | _ => none
 
 def countEv (l : List Event) (p : Event → Bool) : Nat := (l.filter p).length
